@@ -192,10 +192,18 @@ def r08_5(ctx, run, rule='R08.5'):
         op = ops[opc[0][2]]
         for o in ORDS:
             consistent = True
+            DISC = {'Less': (255, -1, 0xFFFFFFFFFFFFFFFF), 'Equal': (0,), 'Greater': (1,)}
             for c in p.conds:
                 if c[0][0] == 'call' and canon(c[0][1]).endswith(('PartialEq::eq', 'PartialEq::ne')):
                     v = eval_bool(c[0], o)
                     if v is not None and v != c[2]:
+                        consistent = False
+                elif c[0][0] == 'discr' and any(s_[0] == 'downcast' and s_[2] == 'Some' and is_call(s_[1], 'PartialOrd::partial_cmp') for s_ in subterms(c[0][1])):
+                    # the ordering tested by its discriminant (`matches!(order, Ordering::Less)`, a `match order`)
+                    seen_ord_test = True
+                    if c[1] == 'eq' and c[2] not in DISC[o]:
+                        consistent = False
+                    elif c[1] == 'ne' and isinstance(c[2], tuple) and any(x in DISC[o] for x in c[2]):
                         consistent = False
             if not consistent:
                 continue
@@ -206,8 +214,15 @@ def r08_5(ctx, run, rule='R08.5'):
                 table.setdefault(op, set())
     exp = {'Eq': {'Equal'}, 'NotEq': {'Less', 'Greater'}, 'Lt': {'Less'}, 'Lte': {'Less', 'Equal'}, 'Gt': {'Greater'}, 'Gte': {'Greater', 'Equal'}}
     loc = f'{b.file}:{b.line}'
+    # the table is only meaningful when some path reads the ordering in a form this rule evaluates
+    readable = any((c[0][0] == 'call' and canon(c[0][1]).endswith(('PartialEq::eq', 'PartialEq::ne'))) or
+                   (c[0][0] == 'discr' and any(s_[0] == 'downcast' and s_[2] == 'Some' and is_call(s_[1], 'PartialOrd::partial_cmp') for s_ in subterms(c[0][1])))
+                   for p in ps for c in p.conds) or any(eval_bool(p.ret, 'Equal') is not None and p.ret[0] != 'const' for p in ps if p.end[0] == 'return')
     for k, v in exp.items():
         got = table.get(k)
+        if got != v and (not readable or got is None):
+            run.undecided(rule, b.path, f'op[{k}]', f'how the result for operator {k} depends on the ordering was not read (expected true for {sorted(v)}): not decided', loc)
+            continue
         (run.proved if got == v else run.violation)(rule, b.path, f'op[{k}]', f'true for {sorted(v)}' if got == v else f'operator {k} holds for orderings {sorted(got) if got is not None else None}, documented {sorted(v)}', loc)
     (run.proved if none_false else run.violation)(rule, b.path, 'incomparable', 'no ordering -> false' if none_false else 'incomparable operands do not yield false', loc)
     # connectives
@@ -330,7 +345,12 @@ def r08_7(ctx, run, rule='R08.7'):
     ps = [p for s0 in [0] + sorted(loops) for p in ex.explore(start=s0, stop=set(loops)) if p.end[0] == 'return']
     tf = {(p.ret[1] if p.ret[0] == 'const' else None) for p in ps}
     ok = True in tf and False in tf
-    (run.proved if ok else run.violation)(rule, b.path, 'existential', 'true on a satisfying pair, false when none' if ok else f'returns {tf}', f'{b.file}:{b.line}')
+    if ok:
+        run.proved(rule, b.path, 'existential', 'true on a satisfying pair, false when none', f'{b.file}:{b.line}')
+    elif None in tf:
+        run.undecided(rule, b.path, 'existential', 'the result is not returned as the constants true / false (an iterator adaptor such as any()?): not decided', f'{b.file}:{b.line}')
+    else:
+        run.violation(rule, b.path, 'existential', f'returns {tf}', f'{b.file}:{b.line}')
 
 
 _EXF = {}
@@ -416,6 +436,8 @@ def r08_9(ctx, run, rule='R08.9'):
         loc = f'{b.file}:{b.line}'
         if has_pass:
             run.proved(rule, p, 'scalar-pass-through', 'a scalar position is re-queued when the step equals Path::BracketWildcard', loc)
+        elif n == 0:
+            run.undecided(rule, p, 'scalar-pass-through', 'this step loop does not pop positions from a queue and branch on their kind in the form this rule reads: how it treats a scalar position for [*] is not decided', loc)
         elif any(hp for _, _, hp, _ in copies):
             run.violation(rule, p, 'scalar-pass-through', 'this copy of the step loop never re-queues a scalar position for the [*] step, while '
                           + ', '.join(x.split('::')[-1] for x, _, hp, _ in copies if hp) + ' does: `[*]` on a non-array passes the value through in the main path '
